@@ -1049,6 +1049,11 @@ func (x *run) quiesce() {
 			for hi := range x.w.Hubs {
 				sim.SetRandStep(uint64(700000 + round*100 + rs.r.Idx*10 + hi))
 				st := &sim.Step{Id: 700000 + round*100 + rs.r.Idx*10 + hi, Op: "pull", R: rs.r.Idx, H: hi}
+				if !x.faults && x.prop != "C09" && rs.r.Idx%2 == 0 {
+					// what a user does: the one-call pull (RepoCache.Pull, identity.Pull + bug.Pull). It
+					// must bring in whatever an earlier fetch already left in the remote-tracking refs.
+					st.K = "pull-api"
+				}
 				pre := x.observe(rs)
 				err := x.guard("pull", func() error { return x.stepPull(rs, st, pre) })
 				post := x.observe(rs)
